@@ -87,6 +87,13 @@ def check_mut(run, A):
                                            f'(e.g. a cache keyed on part of the configuration is shared between objects)'),
                                           construct=f'R-STATE::{c.fn.qual}::global-mutation::{a[2]}', path=c.chain())
                 if kind.startswith('container'):
+                    # list / dict methods that change their receiver: the function's own ** dict is its own; a VALUE taken out of it, or a list / dict parameter, is the caller's
+                    for a in tv.alias:
+                        r = tuple(a[1:]) if a and a[0] == 'maybe' else tuple(a)
+                        if len(r) == 3 and r[0] == 'param' and r[1] == fn.qual:
+                            own = r[2].startswith('**') and not (a and a[0] == 'maybe')
+                            if not own and not r[2].startswith('self'):
+                                bad.setdefault((r[2].lstrip('*') + (' (a value passed in it)' if r[2].startswith('**') else ''), kind, c.fn.qual, norm_stmt(node) if node is not None else ''), (c, node))
                     continue
                 n_effects += 1
                 certain, maybe = effect_target_roots(tv)
